@@ -187,6 +187,19 @@ def run_one(tapes, tier, scenario=None):
             snap["active_count"] = disp.active_count
 
         k.on_finish = on_finish
+        lost = []
+
+        def on_all_blocked(k):
+            # every thread is blocked: a queued task next to a worker parked on the queue condition (and no stop
+            # pending) means that the wake-up for that task was lost - it now waits for somebody else's notify
+            if lost or not disp.queue or disp.stop_count:
+                return
+            idle = [t.name for t in k.threads if t.alive and t.kind == "worker" and t.blocked is not None
+                    and str(t.blocked[2]).startswith("cv.wait:task:54")]
+            if idle:
+                lost.append(([t.tid for t in disp.queue], idle, k.seq))
+
+        k.on_all_blocked = on_all_blocked
         k.run()
     finally:
         waitress.task.threading, waitress.task.time = old
@@ -194,6 +207,7 @@ def run_one(tapes, tier, scenario=None):
         lg.propagate = oldlog[1]
         lg.setLevel(oldlog[2])
         k.on_finish = None
+        k.on_all_blocked = None
         gc.collect()
 
     # ---------------------------------------------------------------- oracle
@@ -227,6 +241,9 @@ def run_one(tapes, tier, scenario=None):
             shutdown_done = e[0]
         elif kind == "resize_done":
             last_resize = e[3]
+    if lost:
+        res.v("lost_wakeup", "idle_worker_with_queued_task", "all threads blocked at seq %d with task(s) %r queued while worker(s) %r sleep on the queue condition" % (
+            lost[0][2], lost[0][0], lost[0][1]))
     for tid in set(appended):
         n = begun.count(tid) + cancelled.count(tid)
         if n > 1:
